@@ -358,27 +358,27 @@ func (w *world) teardown() {
 
 func genSetup(r *coqfmt.Rng, focus, mode string) setupT {
 	var s setupT
-	switch r.Intn(8) {
-	case 0:
-		s.Skip = true
-	case 1, 2:
-		s.Delay = true
-	case 3:
-		s.Delay, s.Suppress = true, true
-	case 4:
-		s.Suppress = true
+	// all 2x2x2 combinations of Skip x Delay x Suppress occur, the odd ones too
+	if r.Chance(1, 2) {
+		s.Skip, s.Delay, s.Suppress = r.Chance(1, 2), r.Chance(1, 2), r.Chance(1, 2)
 	}
 	if focus == "C09" {
-		s.Skip = false
+		s.Skip = r.Chance(1, 4)
 		s.Delay = r.Chance(3, 4)
 		s.Suppress = r.Chance(1, 2)
 	}
+	// a config type without a Verify method
+	s.NV = r.Chance(1, 8) || focus == "C09" && r.Chance(1, 5)
 	s.Def = [3]int{r.Intn(4), 3 + r.Intn(6), r.Intn(10)}
-	if (s.Skip || s.Delay) && r.Chance(1, 3) || r.Chance(1, 25) {
+	if (s.Skip || s.Delay || mode == "nomon") && r.Chance(1, 2) || r.Chance(1, 25) {
 		s.Def[0] = 6 + r.Intn(4) // defaults that do not verify
 		s.Def[1] = r.Intn(5)
 	}
 	n := 1 + r.Intn(3)
+	if mode == "nomon" {
+		n = r.Intn(3) // also no source at all
+	}
+	s.Watching, s.Inits = []bool{}, []svJSON{}
 	for i := 0; i < n; i++ {
 		w := r.Chance(3, 4)
 		if mode == "nomon" {
@@ -399,7 +399,7 @@ func genSetup(r *coqfmt.Rng, focus, mode string) setupT {
 		s.Watching = append(s.Watching, w)
 		s.Inits = append(s.Inits, v)
 	}
-	if mode != "nomon" && r.Chance(9, 10) {
+	if mode != "nomon" && n > 0 && r.Chance(9, 10) {
 		s.Watching[r.Intn(n)] = true
 	}
 	if focus == "C07" && mode != "nomon" && r.Chance(1, 3) {
@@ -681,6 +681,73 @@ var scripts = map[string]script{
 		w.drainMon()
 		w.drainCb()
 	}},
+}
+
+// enableRound: one EnableVerification call taken to its return
+func (w *world) enableRound() {
+	tid := w.startOp(&opT{K: "enable"})
+	w.finish(tid)
+	if t := w.threads[tid]; t != nil && t.pc == "ctl-await" {
+		w.do(label{K: "recv", Src: "ctl"})
+		w.drainMon()
+		w.finish(tid)
+	}
+}
+
+func init() {
+	// EnableVerification before any update, on an initial stack that does not verify, under every
+	// combination of SkipInitialVerification x DelayInitialVerification x CallGlobalCallbacksAfterVerificationEnabled,
+	// then a fixing update and a second enable; with and without a Verify method
+	for _, nv := range []bool{false, true} {
+		for bits := 0; bits < 8; bits++ {
+			skip, delay, suppress := bits&4 != 0, bits&2 != 0, bits&1 != 0
+			name := fmt.Sprintf("enable-first-%d%d%d", bits>>2&1, bits>>1&1, bits&1)
+			if nv {
+				if !delay {
+					continue
+				}
+				name += "-noverify"
+			}
+			st := setupT{Skip: skip, Delay: delay, Suppress: suppress, NV: nv, Def: [3]int{7, 5, 0}, Watching: []bool{true}, Inits: []svJSON{{}}}
+			scripts[name] = script{st, func(w *world) {
+				w.enableRound() // must fail while the installed config does not verify (and the type has Verify)
+				e := w.startOp(&opT{K: "offer", Msg: &msgT{K: "err", Src: 0}})
+				w.do(label{K: "recv", Src: "offer", Tid: e})
+				w.drainMon()
+				w.report(0, svJSON{C: iptr(1)}, true) // re-stack of the still invalid defaults
+				w.drainMon()
+				w.report(0, svJSON{A: iptr(1)}, true) // fixes A <= B
+				w.drainMon()
+				w.enableRound()
+				w.report(0, svJSON{A: iptr(9)}, true) // rejected once verification is on
+				w.drainMon()
+				e = w.startOp(&opT{K: "offer", Msg: &msgT{K: "err", Src: 0}})
+				w.do(label{K: "recv", Src: "offer", Tid: e})
+				w.drainMon()
+				w.report(0, svJSON{A: iptr(2)}, false)
+				w.drainMon()
+				w.drainCb()
+			}}
+			scriptOrder = append(scriptOrder, name)
+		}
+	}
+	// no source at all / one non-watching source, with defaults that do and do not verify
+	for i, st := range []setupT{
+		{Def: [3]int{1, 5, 0}, Watching: []bool{}, Inits: []svJSON{}},
+		{Def: [3]int{7, 5, 0}, Watching: []bool{}, Inits: []svJSON{}},
+		{Def: [3]int{7, 5, 0}, Watching: []bool{false}, Inits: []svJSON{{}}},
+		{Skip: true, Def: [3]int{7, 5, 0}, Watching: []bool{}, Inits: []svJSON{}},
+		{Delay: true, Def: [3]int{7, 5, 0}, Watching: []bool{}, Inits: []svJSON{}},
+		{Delay: true, NV: true, Def: [3]int{7, 5, 0}, Watching: []bool{}, Inits: []svJSON{}},
+	} {
+		name := fmt.Sprintf("no-watcher-%d", i)
+		scripts[name] = script{st, func(w *world) {
+			w.startOp(&opT{K: "view"})
+			w.startOp(&opT{K: "enable"})
+			w.startOp(&opT{K: "register", Zero: true})
+		}}
+		scriptOrder = append(scriptOrder, name)
+	}
 }
 
 var scriptOrder = []string{"late-register", "double-unregister", "srcerr-delay-nosuppress", "srcerr-after-enable-suppress",
